@@ -7,6 +7,8 @@ import Mathlib.Tactic.Linarith
 import Mathlib.Tactic.Ring
 import Mathlib.Tactic.FieldSimp
 import Mathlib.Tactic.SplitIfs
+import Mathlib.Tactic.Positivity
+import Mathlib.Data.Rat.Floor
 
 namespace RQ.Props.C01
 open RQ.Q
@@ -48,7 +50,7 @@ theorem sell_effect (c : InsCfg) (hc : StockCfg c) (p : Pos) (t : TradeIn) (ht :
     (p.applyTradeStock c t).1.equity c + (p.applyTradeStock c t).2 = p.equity c + (t.price - p.last) * (t.qty : Rat) - t.fee := by
   have e1 := equity_eq c hc
   simp only [Pos.applyTradeStock, Pos.applyTradeBase, ht, R.ofInt]
-  simp only [reduceCtorEq, beq_iff_eq, false_and, Bool.false_eq_true, if_false, Bool.and_eq_true, decide_eq_true_eq]
+  simp only [reduceCtorEq, beq_iff_eq, false_and, if_false, Bool.and_eq_true]
   refine ⟨trivial, trivial, trivial, trivial, ?_⟩
   rw [e1, e1]; simp only [Pos.recv]; push_cast; ring
 
@@ -59,5 +61,883 @@ theorem avg_weighted (c : InsCfg) (p : Pos) (t : TradeIn) (ht : t.effect = .open
   have hlt : ¬ p.qty < 0 := by omega
   simp only [Pos.applyTradeStock, Pos.applyTradeBase, ht, R.ofInt, hlt]
   split_ifs <;> first | contradiction | (push_cast at hne' ⊢; field_simp)
+
+/-! ### B. The account -/
+
+def StockAcct (a : Acct) : Prop := ∀ h ∈ a.holdings, StockCfg h.cfg
+
+theorem foldl_add_eq_sum (l : List Rat) (z : Rat) : l.foldl (· + ·) z = z + l.sum := by
+  induction l generalizing z with
+  | nil => simp
+  | cons x xs ih => simp [List.foldl_cons, ih, add_assoc]
+
+theorem pysum_eq_sum (l : List Rat) : R.pysum l = l.sum := by
+  unfold R.pysum; rw [foldl_add_eq_sum]; simp
+
+/-- a stock account has no margin: available cash + reserved cash = the cash balance -/
+theorem cash_plus_frozen (a : Acct) (hs : StockAcct a) : a.cash + a.frozen = a.totalCash := by
+  have hm : a.margin = 0 := by
+    unfold Acct.margin Acct.iterPos
+    rw [pysum_eq_sum]
+    apply List.sum_eq_zero
+    intro x hx
+    simp only [List.mem_map, List.mem_flatMap] at hx
+    obtain ⟨⟨c, p⟩, ⟨h, hh, hcp⟩, rfl⟩ := hx
+    have := hs h hh
+    simp only [List.mem_cons, List.mem_nil_iff, or_false, Prod.mk.injEq] at hcp
+    rcases hcp with ⟨rfl, _⟩ | ⟨rfl, _⟩ <;> simp [Pos.margin, StockCfg] at * <;> simp [this]
+  unfold Acct.cash; rw [hm]; ring
+
+/-- **total value formula**: cash balance + Σ (holdings at the latest price + dividends receivable) − liabilities −
+accrued interest (+ deposits in transit) -/
+theorem total_value_eq (a : Acct) :
+    a.totalValue = a.totalCash + (a.iterPos.map (fun (c, p) => p.equity c)).sum - a.liabilities
+      - a.liabilities * a.finRate / 365 + (a.pending.map (·.2)).sum := by
+  unfold Acct.totalValue Acct.positionEquity Acct.liabInterest
+  rw [pysum_eq_sum]
+  cases hp : a.pending with
+  | nil => simp
+  | cons x xs => simp [pysum_eq_sum]
+
+/-- operations of an account (inputs are whatever the real call received / looked up) -/
+inductive AOp
+  | pendingNew (init : R)
+  | unsolicited (qty filled : Int) (init : R)
+  | trade (ins : Nat) (cfg : InsCfg) (createLast : R) (isLong : Bool) (t : TradeIn) (order : Option (Int × R))
+  | bar (price : Nat → Option R)
+  | beforeTrading (i : BTInput)
+  | settlement (i : STInput)
+  | deposit (amount : R) (recv : Option Nat)
+  | finance (amount : R)
+
+def step (a : Acct) : AOp → Acct
+  | .pendingNew init => a.onPendingNew init
+  | .unsolicited q f init => a.onUnsolicited q f init
+  | .trade ins cfg cl isLong t o => a.applyTrade ins cfg cl isLong t o
+  | .bar price => a.onBar price
+  | .beforeTrading i => a.onBeforeTrading i
+  | .settlement i => a.onSettlement i
+  | .deposit amt recv => (a.depositWithdraw amt recv).getD a      -- a refused withdrawal changes nothing
+  | .finance amt => a.financeRepay amt
+
+/-- order announcements and price updates never touch the cash balance -/
+theorem cash_frame (a : Acct) (op : AOp)
+    (h : match op with | .pendingNew _ | .unsolicited _ _ _ | .bar _ => True | _ => False) :
+    (step a op).totalCash = a.totalCash := by
+  cases op <;> simp_all [step, Acct.onPendingNew, Acct.onUnsolicited, Acct.onBar]
+  split_ifs <;> rfl
+
+theorem getOrCreate_cash (a : Acct) (ins : Nat) (cfg : InsCfg) (cl : R) :
+    (a.getOrCreate ins cfg cl).totalCash = a.totalCash ∧ (a.getOrCreate ins cfg cl).frozen = a.frozen := by
+  unfold Acct.getOrCreate; split <;> simp
+
+theorem getOrCreate_found (a : Acct) (ins : Nat) (cfg : InsCfg) (cl : R) (isLong : Bool) :
+    ∃ cp, (a.getOrCreate ins cfg cl).getPos ins isLong = some cp := by
+  unfold Acct.getOrCreate
+  cases hf : a.findHolding ins with
+  | some h => simp [Acct.getPos, hf]
+  | none =>
+    simp only [Acct.getPos, Acct.findHolding, List.find?_append]
+    unfold Acct.findHolding at hf
+    simp [hf]
+
+/-- the account after the cash reserved for the traded part of the order is released -/
+def unfreeze (a : Acct) (t : TradeIn) (o : Option (Int × R)) : Acct :=
+  match o with
+  | some (oq, init) =>
+    if t.qty ≠ oq then { a with frozen := a.frozen - R.ofInt t.qty / R.ofInt oq * init }
+    else { a with frozen := a.frozen - init }
+  | none => a
+
+theorem unfreeze_frame (a : Acct) (t : TradeIn) (o : Option (Int × R)) :
+    (unfreeze a t o).totalCash = a.totalCash ∧ (unfreeze a t o).holdings = a.holdings := by
+  unfold unfreeze
+  cases o with
+  | none => exact ⟨rfl, rfl⟩
+  | some x => obtain ⟨oq, init⟩ := x; simp only; split_ifs <;> exact ⟨rfl, rfl⟩
+
+theorem applyTrade_some (a : Acct) (ins : Nat) (cfg : InsCfg) (cl : R) (isLong : Bool) (t : TradeIn)
+    (o : Option (Int × R)) (c : InsCfg) (p : Pos)
+    (h : ((unfreeze a t o).getOrCreate ins cfg cl).getPos ins isLong = some (c, p)) :
+    a.applyTrade ins cfg cl isLong t o =
+      { ((unfreeze a t o).getOrCreate ins cfg cl).setPos ins isLong (p.applyTrade c t).1 with
+        totalCash := ((unfreeze a t o).getOrCreate ins cfg cl).totalCash + (p.applyTrade c t).2 } := by
+  show (match ((unfreeze a t o).getOrCreate ins cfg cl).getPos ins isLong with
+    | some (c, p) => _
+    | none => _) = _
+  rw [h]
+  rfl
+
+/-- the pair of empty positions `_get_or_create_pos` appends -/
+def newH (ins : Nat) (cfg : InsCfg) (cl : R) : Holding :=
+  { ins := ins, cfg := cfg, long := Pos.empty true cl, short := Pos.empty false cl }
+
+theorem getOrCreate_holdings (a : Acct) (ins : Nat) (cfg : InsCfg) (cl : R) :
+    (a.getOrCreate ins cfg cl).holdings =
+      if (a.holdings.find? (·.ins == ins)).isSome then a.holdings else a.holdings ++ [newH ins cfg cl] := by
+  unfold Acct.getOrCreate Acct.findHolding
+  cases a.holdings.find? (·.ins == ins) <;> simp [newH]
+
+theorem getPos_congr {a b : Acct} (h : a.holdings = b.holdings) (ins : Nat) (isLong : Bool) :
+    a.getPos ins isLong = b.getPos ins isLong := by
+  unfold Acct.getPos Acct.findHolding; rw [h]
+
+theorem getOrCreate_getPos_congr {a b : Acct} (h : a.holdings = b.holdings) (ins : Nat) (cfg : InsCfg) (cl : R)
+    (ins' : Nat) (isLong : Bool) :
+    (a.getOrCreate ins cfg cl).getPos ins' isLong = (b.getOrCreate ins cfg cl).getPos ins' isLong := by
+  apply getPos_congr
+  rw [getOrCreate_holdings, getOrCreate_holdings, h]
+
+/-- a trade on a stock position: cash delta and quantity -/
+theorem stock_trade (c : InsCfg) (hc : StockCfg c) (p : Pos) (t : TradeIn) :
+    (p.applyTrade c t).2 =
+      (if t.effect = .open_ then -(t.price * (t.qty : Rat)) - t.fee else t.price * (t.qty : Rat) - t.fee) ∧
+    (p.applyTrade c t).1.qty = p.qty + (if t.effect = .open_ then t.qty else -t.qty) := by
+  have e : p.applyTrade c t = p.applyTradeStock c t := by
+    unfold Pos.applyTrade; unfold StockCfg at hc; rw [hc]; simp
+  rw [e]
+  cases ht : t.effect with
+  | open_ =>
+    obtain ⟨h1, h2, -⟩ := buy_effect c hc p t ht
+    rw [h1, h2]; simp
+  | close =>
+    obtain ⟨h1, h2, -⟩ := sell_effect c hc p t ht
+    rw [h1, h2]; simp; ring
+  | closeToday =>
+    simp [Pos.applyTradeStock, Pos.applyTradeBase, ht, R.ofInt]; ring
+
+/-- **cash ledger, trade step**: an executed buy takes `p·q + fee` out of the cash balance, an executed sell puts
+`p·q − fee` in — exactly once per trade, whatever the state of the account -/
+theorem trade_cash (a : Acct) (ins : Nat) (cfg : InsCfg) (cl : R) (isLong : Bool) (t : TradeIn) (o : Option (Int × R))
+    (hcfg : ∀ c p, (a.getOrCreate ins cfg cl).getPos ins isLong = some (c, p) → StockCfg c) :
+    (a.applyTrade ins cfg cl isLong t o).totalCash =
+      a.totalCash + (if t.effect = .open_ then -(t.price * (t.qty : Rat)) - t.fee else t.price * (t.qty : Rat) - t.fee) := by
+  obtain ⟨hcash, hhold⟩ := unfreeze_frame a t o
+  obtain ⟨⟨c, p⟩, hcp⟩ := getOrCreate_found (unfreeze a t o) ins cfg cl isLong
+  have hsc : StockCfg c := hcfg c p (by rw [← getOrCreate_getPos_congr hhold]; exact hcp)
+  rw [applyTrade_some a ins cfg cl isLong t o c p hcp]
+  show ((unfreeze a t o).getOrCreate ins cfg cl).totalCash + (p.applyTrade c t).2 = _
+  rw [(getOrCreate_cash _ ins cfg cl).1, hcash, (stock_trade c hsc p t).1]
+
+theorem sum_filter_split (l : List (Nat × Rat)) (d : Nat) :
+    ((l.filter (fun x => x.1 ≤ d)).map (·.2)).sum + ((l.filter (fun x => d < x.1)).map (·.2)).sum
+      = (l.map (·.2)).sum := by
+  induction l with
+  | nil => simp
+  | cons x xs ih =>
+    by_cases hx : x.1 ≤ d
+    · have hx' : ¬ d < x.1 := by omega
+      simp only [List.filter_cons, hx, hx', decide_true, decide_false, if_true, Bool.false_eq_true, if_false,
+        List.map_cons, List.sum_cons]
+      linarith
+    · have hx' : d < x.1 := by omega
+      simp only [List.filter_cons, hx, hx', decide_true, decide_false, if_true, Bool.false_eq_true, if_false,
+        List.map_cons, List.sum_cons]
+      linarith
+
+/-- deposits, withdrawals, financing: the cash balance moves by exactly the flow; a pending deposit moves it on receipt -/
+theorem flow_cash (a : Acct) (amt : R) :
+    (∀ a', a.depositWithdraw amt none = some a' → a'.totalCash = a.totalCash + amt) ∧
+    (∀ d a', a.depositWithdraw amt (some d) = some a' → a'.totalCash = a.totalCash ∧
+        (a'.pending.map (·.2)).sum = (a.pending.map (·.2)).sum + amt) ∧
+    (0 < amt → (a.financeRepay amt).totalCash = a.totalCash + amt ∧ (a.financeRepay amt).liabilities = a.liabilities + amt) := by
+  refine ⟨?_, ?_, ?_⟩
+  · intro a' h; unfold Acct.depositWithdraw at h; split_ifs at h; simp at h; rw [← h]
+  · intro d a' h; unfold Acct.depositWithdraw at h; split_ifs at h; simp at h; rw [← h]
+    refine ⟨rfl, ?_⟩
+    simp only [List.map_append, List.sum_append, List.map_cons, List.sum_cons]
+    have := sum_filter_split a.pending d
+    linarith
+  · intro h; unfold Acct.financeRepay; simp [h]
+
+set_option linter.unusedVariables false in
+/-- repayment: cash and liabilities both fall by the amount actually repaid (never below zero liabilities) -/
+theorem repay_effect (a : Acct) (amt : R) (h : amt < 0) (hl : 0 ≤ a.liabilities) :
+    let paid := min (-amt) a.liabilities
+    (a.financeRepay amt).liabilities = a.liabilities - paid ∧ (a.financeRepay amt).totalCash = a.totalCash - paid := by
+  have h1 : ¬ (amt > 0) := by linarith
+  have e : R.ofInt (-1) = (-1 : Rat) := by simp [R.ofInt]
+  simp only [Acct.financeRepay, h1, h, if_true, if_false, R.pymin, R.pymax, e, mul_neg_one]
+  rcases le_total (-amt) a.liabilities with hle | hle
+  · rw [min_eq_left hle]
+    constructor
+    · split_ifs <;> linarith
+    · split_ifs <;> linarith
+  · rw [min_eq_right hle]
+    constructor
+    · split_ifs <;> linarith
+    · split_ifs <;> linarith
+
+/-- value is preserved by a financing call: the liability offsets the cash (the interest accrues with time, not here) -/
+theorem finance_equity_neutral (a : Acct) (amt : R) (h : 0 < amt) :
+    (a.financeRepay amt).totalCash - (a.financeRepay amt).liabilities = a.totalCash - a.liabilities := by
+  obtain ⟨h1, h2⟩ := (flow_cash a amt).2.2 h
+  rw [h1, h2]; ring
+
+
+/-! ### C. Day boundary: corporate actions on one stock position (shared with C12) -/
+
+/-- stage 1 of `StockPosition.before_trading`: `_handle_dividend_book_closure` -/
+def btBook (p0 : Pos) (b : Option (R × Nat)) : Pos :=
+  match b with
+  | some (dps, payable) =>
+    { p0 with avg := p0.avg - dps, last := p0.last - dps, divRecv := some (payable, R.ofInt p0.qty * dps) }
+  | none => p0
+
+/-- stage 2: `_handle_dividend_payable` -/
+def btPay (cfg : InsCfg) (p1 : Pos) (today : Nat) (reinvest : Bool) (fee : Int → R → R) : Pos × R × Option TradeIn :=
+  match p1.divRecv with
+  | some (payable, value) =>
+    if payable ≠ today then (p1, 0, none)
+    else
+      let pc := { p1 with divRecv := none }
+      if reinvest then
+        let a0 := R.decQuot10 value pc.last
+        let amount := R.decQuot10 (R.ofInt a0) (R.ofInt cfg.lot) * cfg.lot
+        if amount > 0 then
+          let t : TradeIn := { price := pc.last, qty := amount, effect := .open_, fee := fee amount pc.last }
+          ((pc.applyTradeStock cfg t).1, value - R.ofInt amount * pc.last, some t)
+        else (pc, value - R.ofInt amount * pc.last, none)
+      else (pc, value, none)
+  | none => (p1, 0, none)
+
+/-- stage 3: `_handle_split` -/
+def btSplit (p2 : Pos) (s : Option R) : Pos :=
+  match s with
+  | some ratio =>
+    let q' := R.decMulRound10 (R.ofInt p2.qty) ratio
+    { p2 with avg := p2.avg / ratio, last := p2.last / ratio, qty := q', oldQty := q',
+              logicalOld := R.decMulRound10 (R.ofInt p2.logicalOld) ratio }
+  | none => p2
+
+theorem bts_eq (cfg : InsCfg) (p : Pos) (c : CorpDay) (reinvest : Bool) (fee : Int → R → R) :
+    p.beforeTradingStock cfg c reinvest fee =
+      if p.qty = 0 && p.divRecv.isNone then (p.beforeTradingBase, 0, none)
+      else
+        (btSplit (btPay cfg (btBook p.beforeTradingBase c.bookDps) c.today reinvest fee).1 c.split,
+         0 + (btPay cfg (btBook p.beforeTradingBase c.bookDps) c.today reinvest fee).2.1,
+         (btPay cfg (btBook p.beforeTradingBase c.bookDps) c.today reinvest fee).2.2) := by
+  rfl
+
+theorem btPay_false (c : InsCfg) (p1 : Pos) (today : Nat) (fee : Int → R → R) :
+    (btPay c p1 today false fee).1.last = p1.last ∧ (btPay c p1 today false fee).1.qty = p1.qty ∧
+    (btPay c p1 today false fee).1.recv + (btPay c p1 today false fee).2.1 = p1.recv := by
+  unfold btPay
+  cases hd : p1.divRecv with
+  | none => simp [Pos.recv, hd]
+  | some x =>
+    obtain ⟨pay, v⟩ := x
+    by_cases hp : pay = today <;> simp [Pos.recv, hd, hp]
+
+/-- before_trading without reinvestment and without a split today: booking a dividend (ex-date) and paying it out
+(payable date) move value between the marked price, the receivable and cash — `equity + cash` is unchanged.
+Hypothesis `hov` (added): no dividend is booked while an earlier one is still receivable.  Without it the statement is
+false, because `_handle_dividend_book_closure` OVERWRITES `_dividend_receivable`: with `qty = 100`, `last = 10`,
+`divRecv = some (5, 7)`, `bookDps = some (1, 9)`, `today = 3` the result has equity `9·100 + 100 = 1000` and cash delta 0,
+while the equity before was `1007` — the earlier receivable of 7 is lost (see `bt_book_overwrites`). -/
+theorem bt_stock_neutral (c : InsCfg) (hc : StockCfg c) (p : Pos) (d : CorpDay) (fee : Int → R → R) (hs : d.split = none)
+    (hov : d.bookDps = none ∨ p.recv = 0) :
+    (p.beforeTradingStock c d false fee).1.equity c + (p.beforeTradingStock c d false fee).2.1 = p.equity c := by
+  have e1 := equity_eq c hc
+  rw [bts_eq]
+  by_cases h0 : (decide (p.qty = 0) && p.divRecv.isNone) = true
+  · rw [if_pos h0]; simp only; rw [e1, e1]; simp [Pos.beforeTradingBase, Pos.recv]
+  · rw [if_neg h0]; simp only [hs, btSplit]; rw [e1, e1]
+    obtain ⟨h1, h2, h3⟩ := btPay_false c (btBook p.beforeTradingBase d.bookDps) d.today fee
+    rw [h1, h2]
+    have : (btBook p.beforeTradingBase d.bookDps).last * ((btBook p.beforeTradingBase d.bookDps).qty : Rat)
+        + (btBook p.beforeTradingBase d.bookDps).recv = p.last * (p.qty : Rat) + p.recv := by
+      rcases hov with hb | hr
+      · rw [hb]; simp [btBook, Pos.beforeTradingBase, Pos.recv]
+      · cases hb : d.bookDps with
+        | none => simp [btBook, Pos.beforeTradingBase, Pos.recv]
+        | some x =>
+          obtain ⟨dps, pay⟩ := x
+          rw [hr]
+          simp [btBook, Pos.beforeTradingBase, Pos.recv, R.ofInt]; ring
+    linarith
+
+/-- the counterexample behind `hov`: a second book closure overwrites a receivable that has not been paid yet -/
+theorem bt_book_overwrites :
+    let c : InsCfg := ⟨false, 1, 0, 1, true, 100⟩
+    let p : Pos := { Pos.empty true 10 with qty := 100, divRecv := some (5, 7) }
+    let r := p.beforeTradingStock c { bookDps := some (1, 9), split := none, today := 3 } false (fun _ _ => 0)
+    p.equity c = 1007 ∧ r.1.equity c + r.2.1 = 1000 := by
+  decide +kernel
+
+/-- the receivable booked on the ex-date is exactly `record-date quantity × dividend per share`, the marked price and
+the average cost fall by the dividend per share -/
+theorem bt_book_closure (c : InsCfg) (p : Pos) (dps : R) (pay today : Nat) (fee : Int → R → R) (hpay : pay ≠ today)
+    (hq : p.qty ≠ 0) :
+    let r := p.beforeTradingStock c { bookDps := some (dps, pay), split := none, today := today } false fee
+    r.1.divRecv = some (pay, (p.qty : Rat) * dps) ∧ r.1.last = p.last - dps ∧ r.1.avg = p.avg - dps ∧ r.1.qty = p.qty ∧ r.2.1 = 0 := by
+  simp only [bts_eq, hq, decide_false, Bool.false_and, Bool.false_eq_true, if_false, btSplit, btBook, btPay,
+    Pos.beforeTradingBase, hpay, ne_eq, not_false_eq_true, if_true, R.ofInt, add_zero, and_self]
+
+/-- on the payable date the receivable goes to cash in full and is cleared — also if the shares were sold in between -/
+theorem bt_payable (c : InsCfg) (p : Pos) (value : R) (today : Nat) (fee : Int → R → R) :
+    let r := { p with divRecv := some (today, value) }.beforeTradingStock c { bookDps := none, split := none, today := today } false fee
+    r.2.1 = value ∧ r.1.divRecv = none ∧ r.1.qty = p.qty := by
+  simp [bts_eq, btSplit, btBook, btPay, Pos.beforeTradingBase]
+
+/-- a split scales the quantity by the ratio (rounded to whole shares as the code does) and cost / marked price by its
+inverse; `equity + cash` changes by exactly the rounding remainder `(q' − q·ρ) · last/ρ` — zero when `q·ρ` is whole -/
+theorem bt_split (c : InsCfg) (hc : StockCfg c) (p : Pos) (ratio : R) (today : Nat) (fee : Int → R → R)
+    (hr : ratio ≠ 0) (hnd : p.divRecv = none) (hq : p.qty ≠ 0) :
+    let r := p.beforeTradingStock c { bookDps := none, split := some ratio, today := today } false fee
+    r.1.qty = R.decMulRound10 (R.ofInt p.qty) ratio ∧ r.1.avg = p.avg / ratio ∧ r.1.last = p.last / ratio ∧ r.2.1 = 0 ∧
+    r.1.equity c = p.equity c + (((R.decMulRound10 (R.ofInt p.qty) ratio : Int) : Rat) - (p.qty : Rat) * ratio) * (p.last / ratio) := by
+  have e1 := equity_eq c hc
+  simp only [bts_eq, hq, decide_false, Bool.false_and, Bool.false_eq_true, if_false, btSplit, btBook, btPay,
+    Pos.beforeTradingBase, hnd, add_zero, true_and]
+  rw [e1, e1]
+  simp only [Pos.recv, hnd]
+  field_simp
+  ring
+
+/-! #### the decimal helpers map non-negative inputs to non-negative integers -/
+
+theorem floor_nonneg' (x : Rat) (h : 0 ≤ x) : 0 ≤ x.floor := by
+  have : ⌊x⌋ = x.floor := rfl
+  rw [← this]; exact Int.floor_nonneg.2 h
+
+/-- the half-even rounding used inside the decimal helpers -/
+def halfEven (y : Rat) : Int :=
+  let f := y.floor
+  let d := y - (f : Rat)
+  if d < 1/2 then f else if d > 1/2 then f + 1 else if f % 2 = 0 then f else f + 1
+
+theorem halfEven_nonneg (y : Rat) (h : 0 ≤ y) : 0 ≤ halfEven y := by
+  have := floor_nonneg' y h
+  unfold halfEven
+  simp only
+  split_ifs <;> omega
+
+theorem scaleUp_nonneg (fuel : Nat) (y : Rat) (k : Nat) (h : 0 ≤ y) : 0 ≤ (roundSig10Pos.scaleUp fuel y k).1 := by
+  induction fuel generalizing y k with
+  | zero => simpa [roundSig10Pos.scaleUp] using h
+  | succ n ih =>
+    unfold roundSig10Pos.scaleUp
+    split_ifs
+    · exact ih _ _ (by positivity)
+    · exact h
+
+theorem roundSig10Pos_eq (m : Rat) :
+    roundSig10Pos m =
+      if m.floor.toNat = 0 then
+        ((halfEven ((roundSig10Pos.scaleUp 400 m 0).1 * ((10 ^ 9 : Nat) : Rat)) : Int) : Rat) / ((10 ^ 9 : Nat) : Rat)
+          / ((10 ^ (roundSig10Pos.scaleUp 400 m 0).2 : Nat) : Rat)
+      else if natDigits m.floor.toNat ≥ 10 then
+        ((halfEven (m / ((10 ^ (natDigits m.floor.toNat - 10) : Nat) : Rat)) : Int) : Rat)
+          * ((10 ^ (natDigits m.floor.toNat - 10) : Nat) : Rat)
+      else
+        ((halfEven (m * ((10 ^ (10 - natDigits m.floor.toNat) : Nat) : Rat)) : Int) : Rat)
+          / ((10 ^ (10 - natDigits m.floor.toNat) : Nat) : Rat) := rfl
+
+theorem roundSig10Pos_nonneg (m : Rat) (h : 0 ≤ m) : 0 ≤ roundSig10Pos m := by
+  rw [roundSig10Pos_eq]
+  split_ifs
+  · have hy := scaleUp_nonneg 400 m 0 h
+    have := halfEven_nonneg ((roundSig10Pos.scaleUp 400 m 0).1 * ((10 ^ 9 : Nat) : Rat)) (by positivity)
+    have h' : (0 : Rat) ≤ ((halfEven ((roundSig10Pos.scaleUp 400 m 0).1 * ((10 ^ 9 : Nat) : Rat)) : Int) : Rat) := by
+      exact_mod_cast this
+    positivity
+  · have := halfEven_nonneg (m / ((10 ^ (natDigits m.floor.toNat - 10) : Nat) : Rat)) (by positivity)
+    have h' : (0 : Rat) ≤ ((halfEven (m / ((10 ^ (natDigits m.floor.toNat - 10) : Nat) : Rat)) : Int) : Rat) := by
+      exact_mod_cast this
+    positivity
+  · have := halfEven_nonneg (m * ((10 ^ (10 - natDigits m.floor.toNat) : Nat) : Rat)) (by positivity)
+    have h' : (0 : Rat) ≤ ((halfEven (m * ((10 ^ (10 - natDigits m.floor.toNat) : Nat) : Rat)) : Int) : Rat) := by
+      exact_mod_cast this
+    positivity
+
+theorem roundSig10Rat_nonneg (q : Rat) (h : 0 ≤ q) : 0 ≤ roundSig10Rat q := by
+  unfold roundSig10Rat
+  split_ifs with h0 h1
+  · exact le_refl _
+  · exact absurd h (not_le.2 h1)
+  · exact roundSig10Pos_nonneg q h
+
+theorem decQuot10_nonneg (a b : Rat) (ha : 0 ≤ a) (hb : 0 ≤ b) : 0 ≤ R.decQuot10 a b := by
+  unfold R.decQuot10 decQuot10Rat
+  have hr := roundSig10Rat_nonneg (a / b) (div_nonneg ha hb)
+  simp only
+  rw [if_neg (not_lt.2 hr)]
+  exact floor_nonneg' _ hr
+
+/-- the reinvested quantity is non-negative for a non-negative dividend, marked price and round lot -/
+theorem reinvest_amount_nonneg (c : InsCfg) (p : Pos) (value : R) (hv : 0 ≤ value) (hl : 0 ≤ p.last) (hlot : 0 ≤ c.lot) :
+    0 ≤ R.decQuot10 (R.ofInt (R.decQuot10 value p.last)) (R.ofInt c.lot) * c.lot := by
+  have h1 : 0 ≤ R.decQuot10 value p.last := decQuot10_nonneg value p.last hv hl
+  have h2 : 0 ≤ R.decQuot10 (R.ofInt (R.decQuot10 value p.last)) (R.ofInt c.lot) := by
+    apply decQuot10_nonneg <;> (unfold R.ofInt; exact_mod_cast ‹_›)
+  exact mul_nonneg h2 hlot
+
+/-- reinvestment: the dividend buys whole lots at the marked price, the residual goes to cash; `equity + cash` is unchanged —
+and the commission/tax stamped on the reinvestment trade is NOT taken out of cash (finding F11: the fee is reported on
+the trade and in the position's transaction cost, but `equity + cash` does not fall by it).
+Hypothesis `hamt` (added): the reinvested quantity computed by the code is not negative.  Without it the statement is
+false: for `value = -100`, `last = 1`, `lot = 1` the code computes the quantity −100, publishes no trade, and still
+adds `value − (−100)·last = 0` to cash, so the receivable of −100 disappears from `equity + cash`.
+`reinvest_amount_nonneg` discharges `hamt` for `0 ≤ value`, `0 ≤ last`, `0 ≤ lot` (see the corollary below). -/
+theorem bt_reinvest_neutral_fee_not_deducted (c : InsCfg) (hc : StockCfg c) (p : Pos) (value : R) (today : Nat)
+    (fee : Int → R → R)
+    (hamt : 0 ≤ R.decQuot10 (R.ofInt (R.decQuot10 value p.last)) (R.ofInt c.lot) * c.lot) :
+    let r := { p with divRecv := some (today, value) }.beforeTradingStock c { bookDps := none, split := none, today := today } true fee
+    r.1.equity c + r.2.1 = ({ p with divRecv := some (today, value) } : Pos).equity c := by
+  have e1 := equity_eq c hc
+  by_cases h : R.decQuot10 (R.ofInt (R.decQuot10 value p.last)) (R.ofInt c.lot) * c.lot > 0
+  · simp only [bts_eq, Option.isNone_some, Bool.and_false, Bool.false_eq_true, if_false, btSplit, btBook, btPay,
+      Pos.beforeTradingBase, ne_eq, not_true_eq_false, if_true, h]
+    rw [e1, e1]
+    simp only [Pos.applyTradeStock, Pos.applyTradeBase, Pos.recv, R.ofInt]
+    split_ifs <;> (simp only; push_cast; ring)
+  · have h0 : R.decQuot10 (R.ofInt (R.decQuot10 value p.last)) (R.ofInt c.lot) * c.lot = 0 := by omega
+    simp only [bts_eq, Option.isNone_some, Bool.and_false, Bool.false_eq_true, if_false, btSplit, btBook, btPay,
+      Pos.beforeTradingBase, ne_eq, not_true_eq_false, if_true, h0, gt_iff_lt, lt_self_iff_false]
+    rw [e1, e1]
+    simp only [Pos.recv, R.ofInt]; push_cast; ring
+
+/-- the same with the natural side conditions: non-negative dividend, marked price and round lot -/
+theorem bt_reinvest_neutral_of_nonneg (c : InsCfg) (hc : StockCfg c) (p : Pos) (value : R) (today : Nat)
+    (fee : Int → R → R) (hv : 0 ≤ value) (hl : 0 ≤ p.last) (hlot : 0 ≤ c.lot) :
+    let r := { p with divRecv := some (today, value) }.beforeTradingStock c { bookDps := none, split := none, today := today } true fee
+    r.1.equity c + r.2.1 = ({ p with divRecv := some (today, value) } : Pos).equity c :=
+  bt_reinvest_neutral_fee_not_deducted c hc p value today fee (reinvest_amount_nonneg c p value hv hl hlot)
+
+/-- the counterexample behind `hamt`: a negative receivable "reinvested" vanishes from `equity + cash` -/
+theorem bt_reinvest_negative_amount :
+    let c : InsCfg := ⟨false, 1, 0, 1, true, 1⟩
+    let p : Pos := { Pos.empty true 1 with qty := 100, divRecv := some (3, -100) }
+    let r := p.beforeTradingStock c { bookDps := none, split := none, today := 3 } true (fun _ _ => 0)
+    p.equity c = 0 ∧ r.1.equity c + r.2.1 = 100 := by
+  decide +kernel
+
+/-- delisting payout: the holding is paid out at its last price; `equity + cash` unchanged, position emptied -/
+theorem st_payout_neutral (c : InsCfg) (hc : StockCfg c) (p : Pos) :
+    (p.settlementStock .payout).1.equity c + (p.settlementStock .payout).2 = p.equity c ∧
+    (p.settlementStock .payout).1.qty = 0 := by
+  have e1 := equity_eq c hc
+  unfold Pos.settlementStock
+  by_cases h : p.qty = 0
+  · simp [h]
+  · simp only [h, if_false]; rw [e1, e1]; simp [Pos.recv, R.ofInt]; ring
+
+/-! ### D. Account-level day boundary: the cash balance moves by the sum of the position deltas -/
+
+/-- cash effect of one stock holding at before_trading, in specification form -/
+def btDelta (i : BTInput) (h : Holding) : R :=
+  if h.cfg.isFuture then 0 else (h.long.beforeTradingStock h.cfg (i.corp h.ins) i.reinvest (i.fee h.ins)).2.1
+
+/-- instruments kept by the purge at before_trading -/
+def kept (a : Acct) : List Holding :=
+  a.holdings.filter (fun h =>
+    !((h.long.qty == 0 && h.long.equity h.cfg == 0) && (h.short.qty == 0 && h.short.equity h.cfg == 0)))
+
+/-- a fold that adds a per-element amount to a running cash and appends a per-element image -/
+theorem foldl_pair {α β : Type} (f : α → Rat) (g : α → β) (step : Rat × List β → α → Rat × List β)
+    (hstep : ∀ acc h, step acc h = (acc.1 + f h, acc.2 ++ [g h])) (l : List α) (z : Rat × List β) :
+    l.foldl step z = (z.1 + (l.map f).sum, z.2 ++ l.map g) := by
+  induction l generalizing z with
+  | nil => simp
+  | cons x xs ih =>
+    rw [List.foldl_cons, ih, hstep]
+    simp only [List.map_cons, List.sum_cons, List.append_assoc, List.singleton_append, Prod.mk.injEq, and_true]
+    ring
+
+theorem foldl_snd_sum (l : List (Nat × Rat)) (z : Rat) :
+    l.foldl (fun c d => c + d.2) z = z + (l.map (·.2)).sum := by
+  induction l generalizing z with
+  | nil => simp
+  | cons x xs ih => rw [List.foldl_cons, ih]; simp only [List.map_cons, List.sum_cons]; ring
+
+/-- the holding after before_trading -/
+def btH (i : BTInput) (h : Holding) : Holding :=
+  if h.cfg.isFuture then { h with long := h.long.beforeTradingBase, short := h.short.beforeTradingBase }
+  else { h with long := (h.long.beforeTradingStock h.cfg (i.corp h.ins) i.reinvest (i.fee h.ins)).1,
+                short := h.short.beforeTradingBase }
+
+/-- `_on_before_trading` in closed form -/
+theorem onBeforeTrading_eq (a : Acct) (i : BTInput) :
+    a.onBeforeTrading i =
+      { a with
+        totalCash := a.totalCash + ((a.pending.takeWhile (fun d => d.1 ≤ i.today)).map (·.2)).sum
+          + ((kept a).map (btDelta i)).sum,
+        pending := a.pending.dropWhile (fun d => d.1 ≤ i.today),
+        holdings := (kept a).map (btH i),
+        liabilities := if a.liabilities > 0 then a.liabilities + a.liabilities * a.finRate / 365 else a.liabilities } := by
+  unfold Acct.onBeforeTrading
+  simp only
+  rw [foldl_pair (btDelta i) (btH i) _ ?_, foldl_snd_sum]
+  · rfl
+  · intro acc h
+    unfold btDelta btH
+    by_cases hf : h.cfg.isFuture = true
+    · simp only [hf, if_true, add_zero]
+    · simp only [hf, if_false, add_zero, Bool.false_eq_true]
+
+/-- **cash ledger, before_trading**: the cash balance grows by the deposits that fall due and by the dividend payouts
+(or reinvestment residuals) of the holdings — nothing else -/
+theorem bt_cash_ledger (a : Acct) (i : BTInput) :
+    (a.onBeforeTrading i).totalCash =
+      a.totalCash + ((a.pending.takeWhile (fun d => d.1 ≤ i.today)).map (·.2)).sum + ((kept a).map (btDelta i)).sum := by
+  rw [onBeforeTrading_eq]
+
+/-- financing interest is compounded into the liabilities once per day -/
+theorem bt_interest (a : Acct) (i : BTInput) :
+    (a.onBeforeTrading i).liabilities = (if a.liabilities > 0 then a.liabilities + a.liabilities * a.finRate / 365 else a.liabilities) := by
+  rw [onBeforeTrading_eq]
+
+/-- cash effect of one stock holding at settlement -/
+def stDelta (i : STInput) (h : Holding) : R :=
+  if h.cfg.isFuture then (h.long.settlementFuture h.cfg (i.settle h.ins) (i.expires h.ins)).2.1 +
+      (h.short.settlementFuture h.cfg (i.settle h.ins) (i.expires h.ins)).2.1
+  else (h.long.settlementStock (i.delist h.ins)).2
+
+/-- the holding after settlement -/
+def stH (i : STInput) (h : Holding) : Holding :=
+  if h.cfg.isFuture then
+    { h with long := (h.long.settlementFuture h.cfg (i.settle h.ins) (i.expires h.ins)).1,
+             short := (h.short.settlementFuture h.cfg (i.settle h.ins) (i.expires h.ins)).1 }
+  else { h with long := (h.long.settlementStock (i.delist h.ins)).1, short := (h.short.settlementStock .none).1 }
+
+/-- the account after the positions have settled, before the management fee -/
+def settled (a : Acct) (i : STInput) : Acct :=
+  { a with totalCash := a.totalCash + (a.holdings.map (stDelta i)).sum, holdings := a.holdings.map (stH i) }
+
+/-- the management fee charged at settlement -/
+def mgmtFee (a1 : Acct) : R := if a1.mgmtRate == 0 then 0 else a1.totalValue * a1.mgmtRate
+
+theorem settlementStock_none (p : Pos) : (p.settlementStock .none).2 = 0 := by
+  unfold Pos.settlementStock; split_ifs <;> rfl
+
+/-- `_on_settlement` without forced liquidation, in closed form -/
+theorem onSettlement_eq (a : Acct) (i : STInput) (hf : i.forced = false) :
+    a.onSettlement i =
+      { settled a i with mgmtFees := (settled a i).mgmtFees + mgmtFee (settled a i),
+                         totalCash := (settled a i).totalCash - mgmtFee (settled a i) } := by
+  unfold Acct.onSettlement
+  simp only [hf, Bool.and_false, Bool.false_eq_true, if_false]
+  rw [foldl_pair (stDelta i) (stH i) _ ?_]
+  · rfl
+  · intro acc h
+    unfold stDelta stH
+    by_cases hfu : h.cfg.isFuture = true
+    · simp only [hfu, if_true, Prod.mk.injEq, and_true]; ring
+    · simp only [hfu, if_false, Bool.false_eq_true, settlementStock_none, add_zero]
+
+/-- **cash ledger, settlement** (no forced liquidation): delisting payouts in, management fee out -/
+theorem st_cash_ledger (a : Acct) (i : STInput) (hf : i.forced = false) :
+    ∃ fee, (a.onSettlement i).totalCash = a.totalCash + (a.holdings.map (stDelta i)).sum - fee ∧
+      (a.onSettlement i).mgmtFees = a.mgmtFees + fee ∧ (a.mgmtRate = 0 → fee = 0) := by
+  refine ⟨mgmtFee (settled a i), ?_, ?_, ?_⟩
+  · rw [onSettlement_eq a i hf]; rfl
+  · rw [onSettlement_eq a i hf]; rfl
+  · intro h0
+    have : (settled a i).mgmtRate = 0 := h0
+    simp [mgmtFee, this]
+
+/-! ### E. Holdings ledger -/
+
+/-- quantity of an (instrument, direction) as an observer -/
+def qtyOf (a : Acct) (ins : Nat) (isLong : Bool) : Int :=
+  match a.getPos ins isLong with
+  | some (_, p) => p.qty
+  | none => 0
+
+def NodupIns (a : Acct) : Prop := (a.holdings.map (·.ins)).Nodup
+
+/-- quantity observer on the holdings list -/
+def qtyH (H : List Holding) (ins : Nat) (isLong : Bool) : Int :=
+  match H.find? (·.ins == ins) with
+  | some h => (if isLong then h.long else h.short).qty
+  | none => 0
+
+theorem qtyOf_eq (a : Acct) (ins : Nat) (isLong : Bool) : qtyOf a ins isLong = qtyH a.holdings ins isLong := by
+  unfold qtyOf qtyH Acct.getPos Acct.findHolding
+  cases a.holdings.find? (·.ins == ins) <;> rfl
+
+/-- the per-holding update of `setPos` -/
+def setF (ins : Nat) (isLong : Bool) (p : Pos) (h : Holding) : Holding :=
+  if h.ins == ins then (if isLong then { h with long := p } else { h with short := p }) else h
+
+theorem setPos_holdings (a : Acct) (ins : Nat) (isLong : Bool) (p : Pos) :
+    (a.setPos ins isLong p).holdings = a.holdings.map (setF ins isLong p) := rfl
+
+theorem setF_ins (ins : Nat) (isLong : Bool) (p : Pos) (h : Holding) : (setF ins isLong p h).ins = h.ins := by
+  unfold setF; split_ifs <;> rfl
+
+theorem setF_cfg (ins : Nat) (isLong : Bool) (p : Pos) (h : Holding) : (setF ins isLong p h).cfg = h.cfg := by
+  unfold setF; split_ifs <;> rfl
+
+theorem find_map_ins (g : Holding → Holding) (hi : ∀ h, (g h).ins = h.ins) (H : List Holding) (k : Nat) :
+    (H.map g).find? (·.ins == k) = (H.find? (·.ins == k)).map g := by
+  induction H with
+  | nil => rfl
+  | cons h hs ih =>
+    simp only [List.map_cons, List.find?_cons, hi]
+    cases h.ins == k
+    · simpa using ih
+    · rfl
+
+/-- a map that keeps instrument ids and quantities keeps every observed quantity -/
+theorem qtyH_map (g : Holding → Holding) (hi : ∀ h, (g h).ins = h.ins) (hl : ∀ h, (g h).long.qty = h.long.qty)
+    (hs : ∀ h, (g h).short.qty = h.short.qty) (H : List Holding) (ins : Nat) (isLong : Bool) :
+    qtyH (H.map g) ins isLong = qtyH H ins isLong := by
+  unfold qtyH
+  rw [find_map_ins g hi]
+  cases H.find? (·.ins == ins) with
+  | none => rfl
+  | some h => cases isLong <;> simp [hl, hs]
+
+theorem qtyH_setF (H : List Holding) (ins : Nat) (isLong : Bool) (p : Pos) (ins' : Nat) (isLong' : Bool) :
+    qtyH (H.map (setF ins isLong p)) ins' isLong' =
+      if ins' = ins ∧ isLong' = isLong then (if (H.find? (·.ins == ins)).isSome then p.qty else 0)
+      else qtyH H ins' isLong' := by
+  unfold qtyH
+  rw [find_map_ins _ (setF_ins ins isLong p)]
+  cases hf : H.find? (·.ins == ins') with
+  | none =>
+    by_cases hc : ins' = ins ∧ isLong' = isLong
+    · obtain ⟨rfl, rfl⟩ := hc
+      simp [hf]
+    · simp [hc]
+  | some h =>
+    have hi : h.ins = ins' := by simpa using List.find?_some hf
+    by_cases h1 : ins' = ins
+    · subst h1
+      have hb : (h.ins == ins') = true := by simp [hi]
+      cases isLong <;> cases isLong' <;> simp [setF, hb, hf]
+    · have hb : (h.ins == ins) = false := by simp [hi, h1]
+      simp [setF, hb, h1]
+
+theorem qtyH_getOrCreate (a : Acct) (ins : Nat) (cfg : InsCfg) (cl : R) (ins' : Nat) (isLong' : Bool) :
+    qtyH (a.getOrCreate ins cfg cl).holdings ins' isLong' = qtyH a.holdings ins' isLong' := by
+  rw [getOrCreate_holdings]
+  cases hf : a.holdings.find? (·.ins == ins) with
+  | some h => simp
+  | none =>
+    simp only [Option.isSome_none, Bool.false_eq_true, if_false]
+    unfold qtyH
+    rw [List.find?_append]
+    cases hf' : a.holdings.find? (·.ins == ins') with
+    | some h => simp
+    | none =>
+      simp only [Option.none_or, List.find?_cons, List.find?_nil]
+      cases (newH ins cfg cl).ins == ins' <;> cases isLong' <;> simp [newH, Pos.empty]
+
+theorem getOrCreate_find (a : Acct) (ins : Nat) (cfg : InsCfg) (cl : R) :
+    ((a.getOrCreate ins cfg cl).holdings.find? (·.ins == ins)).isSome = true := by
+  obtain ⟨cp, h⟩ := getOrCreate_found a ins cfg cl true
+  unfold Acct.getPos Acct.findHolding at h
+  cases hf : (a.getOrCreate ins cfg cl).holdings.find? (·.ins == ins) with
+  | some x => rfl
+  | none => rw [hf] at h; simp at h
+
+theorem getPos_qty (a : Acct) (ins : Nat) (isLong : Bool) (c : InsCfg) (p : Pos)
+    (h : a.getPos ins isLong = some (c, p)) : qtyOf a ins isLong = p.qty := by
+  unfold qtyOf; rw [h]
+
+set_option linter.unusedVariables false in
+/-- a trade changes exactly the traded (instrument, direction) by `+q` (open) or `−q` (close) -/
+theorem trade_qty (a : Acct) (hn : NodupIns a) (ins : Nat) (cfg : InsCfg) (cl : R) (isLong : Bool) (t : TradeIn)
+    (o : Option (Int × R)) (hcfg : ∀ c p, (a.getOrCreate ins cfg cl).getPos ins isLong = some (c, p) → StockCfg c) :
+    qtyOf (a.applyTrade ins cfg cl isLong t o) ins isLong =
+      qtyOf a ins isLong + (if t.effect = .open_ then t.qty else -t.qty) ∧
+    ∀ ins' isLong', (ins', isLong') ≠ (ins, isLong) → qtyOf (a.applyTrade ins cfg cl isLong t o) ins' isLong' = qtyOf a ins' isLong' := by
+  obtain ⟨-, hhold⟩ := unfreeze_frame a t o
+  obtain ⟨⟨c, p⟩, hcp⟩ := getOrCreate_found (unfreeze a t o) ins cfg cl isLong
+  have hcp' : (a.getOrCreate ins cfg cl).getPos ins isLong = some (c, p) := by
+    rw [← getOrCreate_getPos_congr hhold]; exact hcp
+  have hsc : StockCfg c := hcfg c p hcp'
+  have hH : (a.applyTrade ins cfg cl isLong t o).holdings =
+      (a.getOrCreate ins cfg cl).holdings.map (setF ins isLong (p.applyTrade c t).1) := by
+    rw [applyTrade_some a ins cfg cl isLong t o c p hcp]
+    show (((unfreeze a t o).getOrCreate ins cfg cl).setPos ins isLong (p.applyTrade c t).1).holdings = _
+    rw [setPos_holdings, getOrCreate_holdings, getOrCreate_holdings, hhold]
+  have hp : p.qty = qtyOf a ins isLong := by
+    rw [← getPos_qty _ ins isLong c p hcp', qtyOf_eq, qtyOf_eq, qtyH_getOrCreate]
+  constructor
+  · rw [qtyOf_eq, hH, qtyH_setF, getOrCreate_find, (stock_trade c hsc p t).2, hp]
+    simp
+  · intro ins' isLong' hne
+    rw [qtyOf_eq, hH, qtyH_setF, qtyOf_eq, qtyH_getOrCreate]
+    have : ¬ (ins' = ins ∧ isLong' = isLong) := by
+      rintro ⟨rfl, rfl⟩; exact hne rfl
+    rw [if_neg this]
+
+/-- operations that leave the holdings list untouched -/
+theorem step_holdings_frame (a : Acct) (op : AOp)
+    (h : match op with | .pendingNew _ | .unsolicited _ _ _ | .deposit _ _ | .finance _ => True | _ => False) :
+    (step a op).holdings = a.holdings := by
+  cases op with
+  | pendingNew init => rfl
+  | unsolicited q f init => simp only [step, Acct.onUnsolicited]; split_ifs <;> rfl
+  | deposit amt recv =>
+    simp only [step, Acct.depositWithdraw]
+    split_ifs
+    · rfl
+    · cases recv <;> rfl
+  | finance amt => simp only [step, Acct.financeRepay]; split_ifs <;> rfl
+  | trade _ _ _ _ _ _ => exact h.elim
+  | bar _ => exact h.elim
+  | beforeTrading _ => exact h.elim
+  | settlement _ => exact h.elim
+
+/-- the per-holding update of `_on_bar` -/
+def barF (price : Nat → Option R) (h : Holding) : Holding :=
+  match price h.ins with
+  | some p => { h with long := { h.long with last := p }, short := { h.short with last := p } }
+  | none => h
+
+theorem onBar_holdings (a : Acct) (price : Nat → Option R) : (a.onBar price).holdings = a.holdings.map (barF price) := rfl
+
+theorem barF_frame (price : Nat → Option R) (h : Holding) :
+    (barF price h).ins = h.ins ∧ (barF price h).cfg = h.cfg ∧ (barF price h).long.qty = h.long.qty ∧
+    (barF price h).short.qty = h.short.qty := by
+  unfold barF; cases price h.ins <;> simp
+
+/-- order announcements, price updates and cash flows never change a quantity -/
+theorem qty_frame (a : Acct) (op : AOp)
+    (h : match op with | .pendingNew _ | .unsolicited _ _ _ | .bar _ | .deposit _ _ | .finance _ => True | _ => False)
+    (ins : Nat) (isLong : Bool) : qtyOf (step a op) ins isLong = qtyOf a ins isLong := by
+  rw [qtyOf_eq, qtyOf_eq]
+  cases op with
+  | pendingNew init => rw [step_holdings_frame a _ trivial]
+  | unsolicited q f init => rw [step_holdings_frame a _ trivial]
+  | deposit amt recv => rw [step_holdings_frame a _ trivial]
+  | finance amt => rw [step_holdings_frame a _ trivial]
+  | bar price =>
+    show qtyH (a.onBar price).holdings ins isLong = _
+    rw [onBar_holdings]
+    exact qtyH_map _ (fun h => (barF_frame price h).1) (fun h => (barF_frame price h).2.2.1)
+      (fun h => (barF_frame price h).2.2.2) _ _ _
+  | trade _ _ _ _ _ _ => exact h.elim
+  | beforeTrading _ => exact h.elim
+  | settlement _ => exact h.elim
+
+/-! ### F. Any sequence of intraday operations: the cash ledger -/
+
+/-- intraday operations on a stock account -/
+def Intraday (op : AOp) : Prop :=
+  match op with
+  | .pendingNew _ | .unsolicited _ _ _ | .bar _ => True
+  | .trade _ cfg _ _ t _ => StockCfg cfg ∧ t.effect ≠ .closeToday
+  | .deposit _ recv => recv = none
+  | .finance amt => 0 < amt
+  | _ => False
+
+/-- ghost ledger entry of an operation -/
+def ledgerEntry (a : Acct) : AOp → R
+  | .trade _ _ _ _ t _ => if t.effect = .open_ then -(t.price * (t.qty : Rat)) - t.fee else t.price * (t.qty : Rat) - t.fee
+  | .deposit amt _ => if (amt < 0 && a.cash < amt * R.ofInt (-1)) then 0 else amt       -- a refused withdrawal is no flow
+  | .finance amt => amt
+  | _ => 0
+
+/-- ledger of an operation list (each entry evaluated in the state the operation meets) -/
+def ledger : Acct → List AOp → R
+  | _, [] => 0
+  | a, op :: ops => ledgerEntry a op + ledger (step a op) ops
+
+theorem getOrCreate_stock (a : Acct) (hs : StockAcct a) (ins : Nat) (cfg : InsCfg) (hc : StockCfg cfg) (cl : R) :
+    StockAcct (a.getOrCreate ins cfg cl) := by
+  intro h hh
+  rw [getOrCreate_holdings] at hh
+  split_ifs at hh
+  · exact hs h hh
+  · rcases List.mem_append.1 hh with hh | hh
+    · exact hs h hh
+    · rw [List.mem_singleton] at hh; subst hh; exact hc
+
+theorem getPos_stock (a : Acct) (hs : StockAcct a) (ins : Nat) (isLong : Bool) (c : InsCfg) (p : Pos)
+    (h : a.getPos ins isLong = some (c, p)) : StockCfg c := by
+  unfold Acct.getPos Acct.findHolding at h
+  cases hf : a.holdings.find? (·.ins == ins) with
+  | none => rw [hf] at h; simp at h
+  | some x =>
+    rw [hf] at h
+    simp only [Option.map_some, Option.some.injEq, Prod.mk.injEq] at h
+    rw [← h.1]
+    exact hs x (List.mem_of_find?_eq_some hf)
+
+/-- intraday operations keep a stock account a stock account -/
+theorem step_stock (a : Acct) (hs : StockAcct a) (op : AOp) (hop : Intraday op) : StockAcct (step a op) := by
+  cases op with
+  | pendingNew init => unfold StockAcct; rw [step_holdings_frame a _ trivial]; exact hs
+  | unsolicited q f init => unfold StockAcct; rw [step_holdings_frame a _ trivial]; exact hs
+  | deposit amt recv => unfold StockAcct; rw [step_holdings_frame a _ trivial]; exact hs
+  | finance amt => unfold StockAcct; rw [step_holdings_frame a _ trivial]; exact hs
+  | bar price =>
+    intro h hh
+    change h ∈ (a.onBar price).holdings at hh
+    rw [onBar_holdings, List.mem_map] at hh
+    obtain ⟨h0, hh0, rfl⟩ := hh
+    unfold StockCfg
+    rw [(barF_frame price h0).2.1]
+    exact hs h0 hh0
+  | trade ins cfg cl isLong t o =>
+    obtain ⟨hc, -⟩ := hop
+    obtain ⟨-, hhold⟩ := unfreeze_frame a t o
+    obtain ⟨⟨c, p⟩, hcp⟩ := getOrCreate_found (unfreeze a t o) ins cfg cl isLong
+    intro h hh
+    change h ∈ (a.applyTrade ins cfg cl isLong t o).holdings at hh
+    rw [applyTrade_some a ins cfg cl isLong t o c p hcp] at hh
+    change h ∈ (((unfreeze a t o).getOrCreate ins cfg cl).setPos ins isLong (p.applyTrade c t).1).holdings at hh
+    rw [setPos_holdings, getOrCreate_holdings, hhold, ← getOrCreate_holdings, List.mem_map] at hh
+    obtain ⟨h0, hh0, rfl⟩ := hh
+    unfold StockCfg
+    rw [setF_cfg]
+    exact getOrCreate_stock a hs ins cfg hc cl h0 hh0
+  | beforeTrading _ => exact hop.elim
+  | settlement _ => exact hop.elim
+
+/-- every intraday operation moves the cash balance by exactly its ledger entry -/
+theorem step_cash (a : Acct) (hs : StockAcct a) (op : AOp) (hop : Intraday op) :
+    (step a op).totalCash = a.totalCash + ledgerEntry a op := by
+  cases op with
+  | pendingNew init => rw [cash_frame a _ trivial]; simp [ledgerEntry]
+  | unsolicited q f init => rw [cash_frame a _ trivial]; simp [ledgerEntry]
+  | bar price => rw [cash_frame a _ trivial]; simp [ledgerEntry]
+  | trade ins cfg cl isLong t o =>
+    obtain ⟨hc, -⟩ := hop
+    exact trade_cash a ins cfg cl isLong t o
+      (fun c p h => getPos_stock _ (getOrCreate_stock a hs ins cfg hc cl) ins isLong c p h)
+  | deposit amt recv =>
+    have hr : recv = none := hop
+    subst hr
+    simp only [step, ledgerEntry]
+    by_cases hw : (amt < 0 && a.cash < amt * R.ofInt (-1)) = true
+    · have : a.depositWithdraw amt none = none := by unfold Acct.depositWithdraw; rw [if_pos hw]
+      rw [this, if_pos hw]; simp
+    · have : a.depositWithdraw amt none = some { a with totalCash := a.totalCash + amt } := by
+        unfold Acct.depositWithdraw; rw [if_neg hw]
+      rw [this, if_neg hw]; rfl
+  | finance amt =>
+    have hpos : 0 < amt := hop
+    exact ((flow_cash a amt).2.2 hpos).1
+  | beforeTrading _ => exact hop.elim
+  | settlement _ => exact hop.elim
+
+/-- **C01.1** for every stock account and EVERY sequence of order announcements, fills, price updates, deposits,
+withdrawals and financing calls: cash balance = starting cash + external flows − cost of every executed buy + proceeds of
+every executed sell − all fees; and available + reserved cash equals that balance throughout -/
+theorem cash_ledger (a : Acct) (hs : StockAcct a) (ops : List AOp) (hops : ∀ op ∈ ops, Intraday op) :
+    (ops.foldl step a).totalCash = a.totalCash + ledger a ops ∧
+    (ops.foldl step a).cash + (ops.foldl step a).frozen = (ops.foldl step a).totalCash := by
+  induction ops generalizing a with
+  | nil => exact ⟨by simp [ledger], cash_plus_frozen a hs⟩
+  | cons op ops ih =>
+    have hop : Intraday op := hops op (List.mem_cons_self ..)
+    have hrest : ∀ op' ∈ ops, Intraday op' := fun op' h => hops op' (List.mem_cons_of_mem _ h)
+    obtain ⟨h1, h2⟩ := ih (step a op) (step_stock a hs op hop) hrest
+    refine ⟨?_, h2⟩
+    rw [List.foldl_cons, h1, step_cash a hs op hop]
+    simp only [ledger]; ring
+
+/-- non-vacuity: a buy of 200 at 10.5 (fee 5), a price update, a partial sell, a deposit -/
+example : (([AOp.pendingNew 2105, .trade 1 ⟨false, 1, 0, 1, true, 100⟩ 10 true ⟨10.5, 200, .open_, 5⟩ (some (200, 2105)),
+    .bar (fun _ => some 11), .trade 1 ⟨false, 1, 0, 1, true, 100⟩ 10 true ⟨11, 100, .close, 6.1⟩ none, .deposit 1000 none] : List AOp).foldl step
+    ⟨100000, 0, 0, [], 0, 0, 0, []⟩).totalCash = 100000 - 2100 - 5 + 1100 - 6.1 + 1000 := by
+  decide +kernel
 
 end RQ.Props.C01
